@@ -200,6 +200,31 @@ class DependencyGraph:
             if not self.edges[waiter]:
                 del self.edges[waiter]
 
+    def remove_waiting(self, waiter: str, resource: str) -> None:
+        """The waiter obtained the resource: it no longer waits for it."""
+        if waiter in self.edges:
+            self.edges[waiter] = [
+                (b, r) for b, r in self.edges[waiter] if r != resource
+            ]
+            if not self.edges[waiter]:
+                del self.edges[waiter]
+
+    def remove_blocking(self, blocking: str, resource: str) -> None:
+        """The holder released the resource: nobody waits on it for that resource."""
+        for waiter in list(self.edges.keys()):
+            self.edges[waiter] = [
+                (b, r) for b, r in self.edges[waiter] if b != blocking or r != resource
+            ]
+            if not self.edges[waiter]:
+                del self.edges[waiter]
+
+    def retarget(self, old: str, new: str, resource: str) -> None:
+        """Ownership of the resource moved: its waiters now wait on the new owner."""
+        for waiter in list(self.edges.keys()):
+            self.edges[waiter] = [
+                ((new if (b == old and r == resource) else b), r) for b, r in self.edges[waiter]
+            ]
+
     def detect_cycle(self) -> Optional[DeadlockInfo]:
         """
         Detect if there's a cycle (deadlock).
